@@ -10,6 +10,7 @@ import (
 	"path/filepath"
 	"sort"
 	"strings"
+	"sync"
 	"sync/atomic"
 	"testing"
 	"testing/synctest"
@@ -32,6 +33,7 @@ type sFile struct {
 	Prev    string  `json:"prev"`    // announced predecessor
 	Data    string  `json:"data"`
 	Cuts    []int64 `json:"cuts"` // part boundaries, e.g. [0,4,8]
+	TimeOff int64   `json:"time_off_s,omitempty"` // file time relative to the scenario's default (seconds)
 }
 
 func (f *sFile) target() string {
@@ -47,7 +49,8 @@ type sAction struct {
 	Op string `json:"op"`
 	F  string `json:"f,omitempty"` // file key
 	P  int    `json:"p,omitempty"` // part index
-	K  int    `json:"k,omitempty"` // crash point (C06)
+	K  int    `json:"k,omitempty"`  // crash point (C06): the receiver dies before the K-th file-system mutation of this step
+	K2 int    `json:"k2,omitempty"` // second crash: before the K2-th mutation of the recovery that follows
 }
 
 func (a sAction) String() string {
@@ -57,6 +60,9 @@ func (a sAction) String() string {
 	}
 	if a.K != 0 {
 		s += fmt.Sprintf("@%d", a.K)
+	}
+	if a.K2 != 0 {
+		s += fmt.Sprintf("@@%d", a.K2)
 	}
 	return s
 }
@@ -72,12 +78,15 @@ type sStep struct {
 	Changed  []string          // staging files whose content changed during the step
 	RmDirs   []string          // directories removed during the step "relpath agebucket empty?"
 	Ops      int               // vos mutations during the step (crash points available)
+	Ops2     int               // vos mutations during the recovery after the crash
 	Crashed  bool              // a crash image was taken in this step and the world restarted from it
 	LogAfter []string          // receive-log records after the step
 	States   map[string]int    // cache state per file name after the step
 	Hashes   map[string]string // cache hash per file name after the step
 	Waiting  map[string]bool   // name -> parked in wait map
 	Stage    []vh.Entry        // staging tree after the step
+	CmpBefore map[string]string // staged name -> hash recorded in its companion before the step
+	Before   []vh.Entry        // staging tree before the step
 	Now      time.Time
 }
 
@@ -92,6 +101,7 @@ type sim struct {
 	crashAt int64
 	image   string
 	roots   []string
+	init    func(s *sim)
 }
 
 func newSim(files []*sFile) *sim {
@@ -109,6 +119,10 @@ func (s *sim) begin() {
 	s.w = newRW(root)
 	s.t0 = time.Now()
 	s.ftime = s.t0.Add(-time.Hour)
+	if s.init != nil {
+		s.init(s)
+		vos.FixTree(root)
+	}
 	s.w.start()
 }
 
@@ -121,7 +135,7 @@ func (s *sim) end() {
 }
 
 func (s *sim) vpart(f *sFile, idx int) *vPart {
-	v := &version{Name: f.Name, Renamed: f.Renamed, Data: []byte(f.Data), Hash: f.hash(), Time: s.ftime}
+	v := &version{Name: f.Name, Renamed: f.Renamed, Data: []byte(f.Data), Hash: f.hash(), Time: s.ftime.Add(time.Duration(f.TimeOff) * time.Second)}
 	return part(v, f.Prev, f.Cuts[idx], f.Cuts[idx+1])
 }
 
@@ -164,6 +178,15 @@ func (s *sim) apply(a sAction, last bool) bool {
 	var before []vh.Entry
 	if last {
 		before = vh.List(w.stageDir)
+		st.Before = before
+		st.CmpBefore = map[string]string{}
+		for _, e := range before {
+			if !e.Dir && strings.HasSuffix(e.Path, compExt) {
+				if cmp, err := readLocalCompanion(filepath.Join(w.stageDir, e.Path), ""); err == nil && cmp != nil {
+					st.CmpBefore[strings.TrimSuffix(e.Path, compExt)] = cmp.Hash
+				}
+			}
+		}
 	}
 	beforeNow := time.Now()
 	atomic.StoreInt64(&s.opCount, 0)
@@ -178,15 +201,19 @@ func (s *sim) apply(a sAction, last bool) bool {
 		if !strings.HasPrefix(p1, root+"/") {
 			return nil
 		}
+		// one mutation at a time, so that the crash image is a point-in-time copy
+		hookMu.Lock()
+		defer hookMu.Unlock()
 		n := atomic.AddInt64(&s.opCount, 1)
 		if s.crashAt > 0 && n == s.crashAt {
+			s.crashAt = 0
 			s.takeImage()
 		}
 		return nil
 	}
 	ok := true
 	switch a.Op {
-	case "recv", "recvbad", "recvwrong":
+	case "recv", "recvbad", "recvwrong", "short":
 		f := s.files[a.F]
 		if a.P >= len(f.Cuts)-1 {
 			return false
@@ -196,6 +223,9 @@ func (s *sim) apply(a sAction, last bool) bool {
 		if a.Op == "recvbad" { // one byte flipped in transit
 			data = append([]byte{}, data...)
 			data[0] ^= 0x20
+		}
+		if a.Op == "short" { // the connection ends one byte before the part does
+			data = data[:len(data)-1]
 		}
 		if a.Op == "recvwrong" { // the announced hash is not the file's
 			p.hash = vh.MD5([]byte("wrong" + f.Data))
@@ -229,6 +259,9 @@ func (s *sim) apply(a sAction, last bool) bool {
 	case "poll":
 		f := s.files[a.F]
 		runAsync(func() { st.Status = w.st.GetFileStatus(f.Name, s.ftime) })
+	case "pollold": // the poll carries an older time (e.g. the start-up recovery poll uses file times and covers older files)
+		f := s.files[a.F]
+		runAsync(func() { st.Status = w.st.GetFileStatus(f.Name, s.ftime.Add(-48*time.Hour)) })
 	case "received":
 		f := s.files[a.F]
 		if a.P >= len(f.Cuts)-1 {
@@ -285,9 +318,30 @@ func (s *sim) apply(a sAction, last bool) bool {
 			w = nw
 			root = nw.root
 			nw.start()
+			atomic.StoreInt64(&s.opCount, 0)
+			s.image = ""
+			s.crashAt = int64(a.K2)
 			runAsync(func() { nw.st.Recover() })
 			nw.settle()
+			st.Ops2 = int(atomic.LoadInt64(&s.opCount))
 			st.Crashed = true
+			if a.K2 > 0 {
+				if a.K2 > st.Ops2 {
+					ok = false // no such crash point inside the recovery (dying at rest after it is K of the next step)
+				} else {
+					nw.stop()
+					nw2 := newRW(s.image)
+					nw2.consumed = nw.consumed
+					s.roots = append(s.roots, s.image)
+					s.w = nw2
+					w = nw2
+					root = nw2.root
+					s.crashAt = 0
+					nw2.start()
+					runAsync(func() { nw2.st.Recover() })
+					nw2.settle()
+				}
+			}
 		}
 	}
 	vos.Hook = nil
@@ -318,6 +372,8 @@ func (s *sim) apply(a sAction, last bool) bool {
 	s.steps = append(s.steps, st)
 	return true
 }
+
+var hookMu sync.Mutex
 
 func (s *sim) takeImage() {
 	img := vh.NewSandbox()
@@ -359,8 +415,14 @@ func (s *sim) digest(extra ...string) string {
 
 // simRun replays a history in a fresh bubble and hands the simulator to check.
 func simRun(files []*sFile, hist []sAction, check func(s *sim, enabled bool) vh.HistResult) (res vh.HistResult) {
+	return simRunInit(files, hist, nil, check)
+}
+
+// simRunInit: init prepares the sandbox (e.g. an old receive log) before the stage starts.
+func simRunInit(files []*sFile, hist []sAction, init func(s *sim), check func(s *sim, enabled bool) vh.HistResult) (res vh.HistResult) {
 	synctest.Test(stT, func(t *testing.T) {
 		s := newSim(files)
+		s.init = init
 		s.begin()
 		defer s.end()
 		for i, a := range hist {
